@@ -9,6 +9,8 @@ R-C02.6  the recorded return/yield type is get_type(arg) of the event's own valu
 R-C02.7  event dispatch: handle_call only on 'call', handle_return only on 'return'
 R-C02.8  histories on one tracer object: a call records types inferred from its own values (no stale memo), every
          yield reaches its own frame's trace
+R-C02.13 a resumption (also by throw()/close(), which arrives at YIELD_VALUE) of a frame without an in-flight trace starts
+         no trace: the locals of that moment are not the values bound when the call started
 """
 from __future__ import annotations
 
@@ -459,6 +461,34 @@ def rule_no_overwrite(ctx: Ctx, repo: Repo) -> None:
     ctx.floor("R-C02.3", "call events of already-traced frames", n, 60)
 
 
+def rule_no_late_start(ctx: Ctx, repo: Repo) -> None:
+    """R-C02.13: a 'call' event that is a *resumption* (after a yield / await, or an exception thrown into / close() of the
+    suspended frame, which arrives at YIELD_VALUE) of a frame WITHOUT an in-flight trace - entered before tracing began, or
+    not admitted at its first entry - starts no trace: the frame's locals at that moment are not the values bound to the
+    parameters when the call started, and the call was never admitted."""
+    _, call_points = corpus_points()
+    fi = repo.method(repo.cls(M, "CallTracer"), "handle_call")
+    fname = fi.positional_params()[1]
+    locs = R("dict", items=((K("x"), S("val:x")), (K("y"), S("val:y")), (K("i"), S("val:i"))))
+    n = 0
+    for p in call_points:
+        if p.kind != "resume":
+            continue
+        for rate, draw in ((None, None), (1, 0), (3, 0)):
+            sc = TracerScenario(repo, "handle_call", {"sample_rate": K(rate)}, trace_in_table=K(None), func_value=S("func"),
+                                draw=K(draw) if draw is not None else None, cache_hit=False)
+            outs = sc.run({fname: frame_value(p, f_locals=locs)})
+            if len(outs) != 1:
+                raise AnalysisError("handle_call forked")
+            effs = relevant(outs[0].effects)
+            bad = [e for e in effs if (e[0] == "setitem" and e[1] == "self.traces") or e[0] in ("CallTrace", "get_type")]
+            n += 1
+            ctx.check(not bad, "R-C02.13", fi.fq,
+                      "a resumption of a frame without an in-flight trace starts no trace (its locals are no longer the values bound when the call started)",
+                      construct=f"resume at {p.opname} after `{p.src.strip().splitlines()[1].strip()}` (rate={rate}): {sorted(set(e[0] for e in bad))}")
+    ctx.floor("R-C02.13", "resumptions of untraced frames", n, 24)
+
+
 def rule_dispatch(ctx: Ctx, repo: Repo) -> None:
     """R-C02.7: __call__ dispatches `call` events to handle_call only and `return` events to
     handle_return only, with the event's own frame and arg."""
@@ -613,6 +643,7 @@ def run(ctx: Ctx, repo: Repo, tier: str) -> None:
     ctx.attempt(rule_attribution, ctx, repo)
     ctx.attempt(rule_arg_capture, ctx, repo)
     ctx.attempt(rule_no_overwrite, ctx, repo)
+    ctx.attempt(rule_no_late_start, ctx, repo)
     ctx.attempt(rule_no_residue_on_failure, ctx, repo)
     ctx.attempt(rule_yield_accumulation, ctx, repo)
     ctx.attempt(rule_dispatch, ctx, repo)
